@@ -96,6 +96,9 @@ func cmdFunc(args []string) {
 		}
 		fc := e.VerifyFunc(key, *small)
 		reportFn(fc, work, *timeout, *verbose)
+		if len(e.Spec.Funcs[key].Guarantee) > 0 {
+			reportFn(e.VerifyGuarantee(key), work, *timeout, *verbose)
+		}
 	}
 	if *lemmas {
 		for _, r := range e.Spec.Refines {
